@@ -282,6 +282,8 @@ pub fn hostile_text(rng: &mut Rng, lex: &Lexicon, max_words: usize) -> String {
                 }
                 0 => s.push_str("-"),
                 1 => s.push_str("'"),
+                // a mark typed with no space on either side
+                23 => s.push_str(rng.pick_str(&[".", ",", ";", ":", "!", "?", "/", "…"])),
                 2 => s.push_str(" - "),
                 3 => s.push_str(", "),
                 4 => s.push_str(". "),
